@@ -54,3 +54,294 @@ def SRet(x=NoE): return {"s": "return", "x": x}
 def SThrow(x, nid=0): return {"s": "throw", "x": x, "nid": nid}
 def STry(b, cv="e", c=NoS, f=NoS): return {"s": "try", "b": b, "cv": cv, "c": c, "f": f}
 def Prog(body): return {"body": list(body)}
+
+
+# ------------------------------------------------------------------------------------------------
+# Seeded generator of larger programs: several functions, bounded loops, recursion, closures,
+# labelled exits, switch, try/catch/finally, array callbacks.  Typed by construction so that the
+# programs stay inside the fragment MiniJS models: every arithmetic operand is a small integer,
+# every function returns an integer on every path, every variable is initialised where it is
+# declared, loops are bounded by dedicated counters.  What a program *means* is decided by TLC.
+# ------------------------------------------------------------------------------------------------
+class Gen:
+    def __init__(self, rnd, size=1.0):
+        self.r = rnd
+        self.size = size
+        self.uid = 0
+        self.funcs = []          # (name, nparams) callable from later code
+        self.budget = 0
+
+    def fresh(self, p):
+        self.uid += 1
+        return "%s%d" % (p, self.uid)
+
+    def pick(self, xs):
+        return xs[self.r.randrange(len(xs))]
+
+    def chance(self, p):
+        return self.r.random() < p
+
+    # ---- expressions -------------------------------------------------------------------------
+    def int_expr(self, sc, depth=0):
+        r = self.r.random()
+        ints = sc["ints"]
+        if depth >= 2 or r < 0.25:
+            return Num(self.r.randrange(0, 10))
+        if r < 0.55 and ints:
+            return Var(self.pick(ints))
+        if r < 0.70:
+            return Bin(self.pick(["+", "-"]), self.int_expr(sc, depth + 1), self.int_expr(sc, depth + 1))
+        if r < 0.74:
+            return Bin("*", self.int_expr(sc, depth + 1), Num(self.r.randrange(0, 4)))
+        if r < 0.80:
+            return Cond(self.bool_expr(sc, depth + 1), self.int_expr(sc, depth + 1), self.int_expr(sc, depth + 1))
+        if r < 0.86 and sc["mut"]:
+            x = self.pick(sc["mut"])
+            k = self.r.randrange(4)
+            if k == 0:
+                return Upd(self.pick(["++", "--"]), self.chance(0.5), x)
+            if k == 1:
+                return Asg(x, self.int_expr(sc, depth + 1))
+            if k == 2:
+                return CAsg(self.pick(["+", "-"]), x, self.int_expr(sc, depth + 1))
+            return Comma([Asg(x, self.int_expr(sc, depth + 1)), Var(x)])
+        if r < 0.95 and self.funcs and sc["calls"] > 0 and self.budget > 0:
+            self.budget -= 1
+            name, n, kind = self.pick(self.funcs)
+            if kind == "rec":
+                return Call(Var(name), [Num(self.r.randrange(0, 3))] + [self.int_expr(sc, depth + 1) for _ in range(n - 1)])
+            return Call(Var(name), [self.int_expr(sc, depth + 1) for _ in range(n)])
+        if sc["arrs"]:
+            a = self.pick(sc["arrs"])
+            return Dot(Var(a), "length")
+        return Num(self.r.randrange(0, 10))
+
+    def bool_expr(self, sc, depth=0):
+        r = self.r.random()
+        if depth >= 2 or r < 0.7:
+            return Bin(self.pick(["<", ">", "<=", ">=", "==", "!=", "===", "!=="]), self.int_expr(sc, depth + 1), self.int_expr(sc, depth + 1))
+        if r < 0.8:
+            return Un("!", self.bool_expr(sc, depth + 1))
+        return (And if self.chance(0.5) else Or)(self.bool_expr(sc, depth + 1), self.bool_expr(sc, depth + 1))
+
+    # ---- statements --------------------------------------------------------------------------
+    def block(self, sc, depth, n=None):
+        n = n if n is not None else self.r.randrange(1, 4)
+        return SBlock([self.stmt(sc, depth) for _ in range(n)])
+
+    def exit_stmt(self, sc):
+        """an abrupt statement that is legal here"""
+        opts = []
+        if sc["loops"]:
+            opts += [SBreak(), SCont()]
+        if sc["breakable"] and not sc["loops"]:
+            opts += [SBreak()]
+        for lab in sc["labels"]:
+            opts.append(SBreak(lab))
+        for lab in sc["looplabels"]:
+            opts.append(SCont(lab))
+        if sc["infn"]:
+            opts.append(SRet(self.int_expr(sc, 1)))
+        if sc["tries"] > 0 or self.chance(0.15):
+            opts.append(SThrow(self.int_expr(sc, 1)))
+        if not opts:
+            return SLog(self.int_expr(sc))
+        return self.pick(opts)
+
+    def stmt(self, sc, depth):
+        r = self.r.random()
+        if depth >= 3 or r < 0.30:
+            return SLog(self.int_expr(sc))
+        if r < 0.40 and sc["mut"]:
+            return SExpr(Asg(self.pick(sc["mut"]), self.int_expr(sc)))
+        if r < 0.50:
+            return SIf(self.bool_expr(sc), self.block(sc, depth + 1), self.block(sc, depth + 1) if self.chance(0.4) else NoS)
+        if r < 0.58:
+            return SIf(self.bool_expr(sc), SBlock([self.exit_stmt(sc)]))
+        if r < 0.72:
+            return self.loop(sc, depth)
+        if r < 0.78:
+            return self.switch(sc, depth)
+        if r < 0.88:
+            return self.try_stmt(sc, depth)
+        if r < 0.92 and sc["arrs"]:
+            return self.array_stmt(sc, depth)
+        if r < 0.95:
+            lab = self.fresh("B")
+            inner = dict(sc, labels=sc["labels"] + [lab])
+            return SLabel(lab, self.block(inner, depth + 1))
+        return SLog(self.int_expr(sc))
+
+    def loop(self, sc, depth):
+        kind = self.pick(["for", "while", "dowhile", "forin", "forof", "forina"])
+        lab = self.fresh("L") if self.chance(0.4) else None
+        inner = dict(sc, loops=sc["loops"] + 1, calls=sc["calls"] - 1)
+        if lab:
+            inner["labels"] = sc["labels"] + [lab]
+            inner["looplabels"] = sc["looplabels"] + [lab]
+        n = self.r.randrange(1, 4)
+        if kind == "for":
+            i = self.fresh("i")
+            sc["decl"].append(i)
+            inner["ints"] = sc["ints"] + [i]
+            s = SFor(SVar((i, Num(0))), Bin("<", Var(i), Num(n)), Upd("++", self.chance(0.5), i), self.block(inner, depth + 1))
+        elif kind in ("while", "dowhile"):
+            c = self.fresh("c")
+            sc["decl"].append(c)
+            inner["ints"] = sc["ints"] + [c]
+            body = self.block(inner, depth + 1)
+            body["b"].insert(0, SExpr(Upd("++", False, c)))
+            pre = SExpr(Asg(c, Num(0)))
+            s = SWhile(Bin("<", Var(c), Num(n)), body) if kind == "while" else SDo(body, Bin("<", Var(c), Num(n)))
+            s = [pre, s]
+        elif kind == "forin":
+            k = self.fresh("k")
+            sc["decl"].append(k)
+            keys = ["p", "q", "r"][:n]
+            obj = Obj(keys, [self.int_expr(sc, 1) for _ in keys])
+            body = self.block(inner, depth + 1)
+            body["b"].insert(0, SLog(Var(k)))
+            s = SForIn(True, k, obj, body)
+        elif kind == "forina":
+            k = self.fresh("k")
+            sc["decl"].append(k)
+            arr = Arr([self.int_expr(sc, 1) for _ in range(n)])
+            body = self.block(inner, depth + 1)
+            body["b"].insert(0, SLog(Var(k)))
+            s = SForIn(True, k, arr, body)
+        else:
+            v = self.fresh("v")
+            sc["decl"].append(v)
+            inner["ints"] = sc["ints"] + [v]
+            s = SForOf(True, v, Arr([self.int_expr(sc, 1) for _ in range(n)]), self.block(inner, depth + 1))
+        if isinstance(s, list):
+            pre, loop = s
+            return SBlock([pre, SLabel(lab, loop) if lab else loop])
+        return SLabel(lab, s) if lab else s
+
+    def switch(self, sc, depth):
+        inner = dict(sc, breakable=True)
+        cases = []
+        vals = self.r.sample(range(0, 5), self.r.randrange(1, 4))
+        for v in vals:
+            body = [self.stmt(inner, depth + 1) for _ in range(self.r.randrange(0, 3))]
+            if self.chance(0.6):
+                body.append(SBreak())
+            cases.append(Case(Num(v), body))
+        if self.chance(0.6):
+            body = [self.stmt(inner, depth + 1)]
+            if self.chance(0.5):
+                body.append(SBreak())
+            cases.insert(self.r.randrange(0, len(cases) + 1), Case(NoE, body))
+        return SSwitch(self.int_expr(sc, 1), cases)
+
+    def try_stmt(self, sc, depth):
+        e = self.fresh("e")
+        inner = dict(sc, tries=sc["tries"] + 1)
+        b = self.block(inner, depth + 1)
+        k = self.r.randrange(3)
+        csc = dict(sc, ints=sc["ints"] + [e])
+        c = SBlock([SLog(Var(e))] + self.block(csc, depth + 1, self.r.randrange(0, 2))["b"]) if k != 1 else NoS
+        f = SBlock([SLog(Num(self.r.randrange(90, 100)))] + self.block(sc, depth + 1, self.r.randrange(0, 2))["b"]) if k != 0 else NoS
+        return STry(b, e, c, f)
+
+    def array_stmt(self, sc, depth):
+        a = self.pick(sc["arrs"])
+        k = self.r.randrange(3)
+        if k == 0:
+            return SExpr(Call(Dot(Var(a), "push"), [self.int_expr(sc)]))
+        x = self.fresh("x")
+        inner = dict(sc, ints=sc["ints"] + [x], infn=True, loops=0, breakable=False, labels=[], looplabels=[], tries=0,
+                     decl=[], calls=sc["calls"] - 1)
+        body = [self.stmt(inner, depth + 1) for _ in range(self.r.randrange(1, 3))]
+        body = self.with_decls(inner, body) + [SRet(self.int_expr(inner, 1))]
+        fn = Fun("", [x], body) if self.chance(0.7) else Arrow([x], body)
+        if k == 1:
+            return SExpr(Call(Dot(Var(a), "forEach"), [fn]))
+        return SLog(Dot(Call(Dot(Var(a), "map"), [fn]), "length"))
+
+    def with_decls(self, sc, body):
+        """declare (and initialise) the counters and loop variables the body uses"""
+        ds = [(x, Num(0)) for x in sc["decl"] if not x.startswith(("i", "k", "v"))]
+        return ([SVar(*ds)] if ds else []) + body
+
+    # ---- functions and program ---------------------------------------------------------------
+    def function(self, name, kind):
+        n = self.r.randrange(1, 4)
+        params = [self.fresh("p") for _ in range(n)]
+        locs = [self.fresh("a") for _ in range(self.r.randrange(0, 3))]
+        sc = {"ints": params + locs + self.globals, "mut": params + locs + self.globals, "arrs": list(self.garrs),
+              "loops": 0, "breakable": False, "labels": [], "looplabels": [], "infn": True, "tries": 0, "decl": [],
+              "calls": 2}
+        body = []
+        if kind == "rec":
+            # params[0] is the recursion depth: the recursive call happens only while it is positive
+            rest = [self.int_expr(sc, 1) for _ in params[1:]]
+            body.append(SIf(Bin(">", Var(params[0]), Num(0)),
+                            SBlock([SLog(Var(params[0])),
+                                    SExpr(Asg(locs[0] if locs else params[-1], Call(Var(name), [Bin("-", Var(params[0]), Num(1))] + rest)))])))
+            sc["mut"] = [x for x in sc["mut"] if x != params[0]]
+        body += [self.stmt(sc, 1) for _ in range(self.r.randrange(1, 4))]
+        body.append(SRet(self.int_expr(sc, 1)))
+        decls = [SVar(*[(x, Num(self.r.randrange(0, 5))) for x in locs])] if locs else []
+        body = decls + self.with_decls(sc, body)
+        return SFun(name, params, body), len(params)
+
+    def closure_maker(self, name):
+        """mk(p): a pair of closures over one captured variable; returns an object {g, s}"""
+        p = self.fresh("p")
+        v = self.fresh("w")
+        cap = self.pick([p, v])
+        a = self.fresh("q")
+        sc = {"ints": [p, v, a] + self.globals, "mut": [cap] + self.globals, "arrs": [], "loops": 0, "breakable": False,
+              "labels": [], "looplabels": [], "infn": True, "tries": 0, "decl": [], "calls": 0}
+        setter = Fun("", [a], [SExpr(Asg(cap, self.int_expr(sc, 1))), SRet(Var(cap))])
+        getter = Fun("", [], [SRet(Bin("+", Var(cap), Var(v)))])
+        return SFun(name, [p], [SVar((v, self.int_expr({**sc, "ints": [p] + self.globals, "mut": []}, 1))),
+                                SRet(Obj(["g", "s"], [getter, setter]))])
+
+    def program(self):
+        self.globals = [self.fresh("g") for _ in range(self.r.randrange(1, 4))]
+        self.garrs = [self.fresh("arr") for _ in range(self.r.randrange(0, 2))]
+        head = [SVar(*[(g, Num(self.r.randrange(0, 5))) for g in self.globals])]
+        for a in self.garrs:
+            head.append(SVar((a, Arr([Num(self.r.randrange(0, 5)) for _ in range(self.r.randrange(0, 3))]))))
+        fdecls = []
+        nf = self.r.randrange(1, 4)
+        for j in range(nf):
+            name = self.fresh("f")
+            kind = "rec" if self.chance(0.3) else "plain"
+            self.budget = 3
+            d, n = self.function(name, kind)
+            fdecls.append(d)
+            self.funcs.append((name, n, kind))
+        main = []
+        objs = []
+        if self.chance(0.6):
+            mk = self.fresh("mk")
+            fdecls.append(self.closure_maker(mk))
+            for _ in range(self.r.randrange(1, 3)):
+                o = self.fresh("o")
+                objs.append(o)
+                main.append(SVar((o, Call(Var(mk), [Num(self.r.randrange(0, 5))]))))
+        sc = {"ints": list(self.globals), "mut": list(self.globals), "arrs": list(self.garrs), "loops": 0, "breakable": False,
+              "labels": [], "looplabels": [], "infn": False, "tries": 0, "decl": [], "calls": 2}
+        self.budget = 6
+        for _ in range(self.r.randrange(2, 6)):
+            if objs and self.chance(0.3):
+                o = self.pick(objs)
+                main.append(SLog(Call(Dot(Var(o), self.pick(["g", "s"])), [self.int_expr(sc, 1)])))
+            else:
+                main.append(self.stmt(sc, 0))
+        main = self.with_decls(sc, main)
+        # function declarations may stand before or after the code that calls them (hoisting)
+        if self.chance(0.5):
+            body = head + fdecls + main
+        else:
+            body = head + main + fdecls
+        body.append(SExpr(Var(self.globals[0])))         # completion value of the script
+        return Prog(body)
+
+
+def random_program(rnd):
+    return Gen(rnd).program()
